@@ -423,6 +423,16 @@ func relDecision(pv *Prov, b *ssa.BasicBlock) string {
 			return "any-token"
 		}
 	}
+	// the decision may be made by a predicate helper: if allRelValuesAllowURL(linkRel) { … }
+	for _, g := range GuardsOf(b) {
+		if c, ok := g.Cond.(*ssa.Call); ok && g.Pol {
+			if h := staticCallee(c.Common()); h != nil && h.Pkg == b.Parent().Pkg && h.Blocks != nil {
+				if d := relDecisionOfPredicate(h); d != "none" {
+					return d
+				}
+			}
+		}
+	}
 	for _, g := range GuardsOf(b) {
 		ph, ok := g.Cond.(*ssa.Phi)
 		if !ok || !g.Pol {
@@ -922,4 +932,109 @@ func checkForbiddenPositions(p *Program, r *Report, rule string) {
 		}
 	}
 	r.Check(okErrCtx, rule, "template.(*escaper).escapeAction#error-context", p.Pos(sfc.Pos()), "a rejected position becomes an error context (analysis fails)", "the lookup error is not turned into an error context")
+}
+
+// relDecisionOfPredicate classifies a boolean helper over the rel value: "all-tokens" if it returns
+// true only after a loop over strings.Fields(rel) in which every token that is not in the table
+// leads to "return false", and an empty token list gives false; "any-token" if one listed token
+// suffices for true.
+func relDecisionOfPredicate(h *ssa.Function) string {
+	if h.Signature.Results().Len() != 1 {
+		return "none"
+	}
+	var lookups []*ssa.Lookup
+	for _, b := range h.Blocks {
+		for _, in := range b.Instrs {
+			if lk, ok := in.(*ssa.Lookup); ok && isRelLookup(lk) {
+				lookups = append(lookups, lk)
+			}
+		}
+	}
+	if len(lookups) == 0 {
+		return "none"
+	}
+	retConst := func(b *ssa.BasicBlock) (bool, bool) {
+		// follows jumps to a return of a boolean constant
+		for i := 0; i < 4; i++ {
+			switch last := b.Instrs[len(b.Instrs)-1].(type) {
+			case *ssa.Return:
+				return constBool(last.Results[0])
+			case *ssa.Jump:
+				b = b.Succs[0]
+			default:
+				return false, false
+			}
+		}
+		return false, false
+	}
+	allNegFalse := true
+	for _, lk := range lookups {
+		iff, ok := lk.Block().Instrs[len(lk.Block().Instrs)-1].(*ssa.If)
+		if !ok {
+			return "none"
+		}
+		pos, neg := lk.Block().Succs[0], lk.Block().Succs[1]
+		cond := iff.Cond
+		if u, ok := cond.(*ssa.UnOp); ok && u.X == ssa.Value(lk) {
+			pos, neg = neg, pos
+		} else if cond != ssa.Value(lk) {
+			return "none"
+		}
+		if v, ok := retConst(pos); ok && v {
+			return "any-token"
+		}
+		if v, ok := retConst(neg); !ok || v {
+			allNegFalse = false
+		}
+	}
+	if !allNegFalse {
+		return "none"
+	}
+	// every "return true" is reached only when the token list is non-empty: dominated by len(Fields(rel)) != 0
+	nTrue := 0
+	for _, ret := range Returns(h) {
+		v, ok := constBool(ret.Results[0])
+		if !ok {
+			return "none"
+		}
+		if !v {
+			continue
+		}
+		nTrue++
+		nonEmpty := false
+		for _, g := range GuardsOf(ret.Block()) {
+			bo, ok := g.Cond.(*ssa.BinOp)
+			if !ok {
+				continue
+			}
+			c, ok := bo.X.(*ssa.Call)
+			if !ok {
+				continue
+			}
+			bi, ok := c.Common().Value.(*ssa.Builtin)
+			if !ok || bi.Name() != "len" {
+				continue
+			}
+			if _, ok := isCallTo(c.Common().Args[0], "strings.Fields"); !ok {
+				continue
+			}
+			k, okk := constInt(bo.Y)
+			if !okk || k != 0 {
+				continue
+			}
+			switch bo.Op.String() {
+			case "==":
+				nonEmpty = nonEmpty || !g.Pol
+			case "!=", ">":
+				nonEmpty = nonEmpty || g.Pol
+			}
+		}
+		if !nonEmpty {
+			return "none"
+		}
+	}
+	if nTrue == 0 {
+		return "none"
+	}
+	return "all-tokens"
 }
